@@ -77,6 +77,7 @@ def run_unit(unit):
                      max_states=cap, on_proposal=on_proposal,
                      classify=classify)
     try:
+        common.reset_ids(0)
         s.run(graph.parse(text))
     except Exception as e:  # noqa
         # an exception escaping collect_information etc. is C04's business;
